@@ -1,5 +1,6 @@
 """C18 — custom converter precedence and reach."""
 import itertools
+import enum
 import typing as t
 
 from .. import env, drive
@@ -75,13 +76,24 @@ class MyInt(int):
     pass
 
 
-PROBES = {'scalar': int, 'hasconv': HasConv, 'plain': Plain, 'listsub': ListSub}
-DATA = {'scalar': 5, 'hasconv': 'x', 'plain': 'x', 'listsub': [1, 2]}
+class Colour(enum.Enum):
+    RED = 'r'
+    BLUE = 'b'
+
+
+class Perm(enum.Flag):
+    R = 1
+    W = 2
+
+
+# an Enum has a built-in converter (a structural one: it comes after the registered global handlers); a Flag has none
+PROBES = {'scalar': int, 'hasconv': HasConv, 'plain': Plain, 'listsub': ListSub, 'enum': Colour, 'flag': Perm}
+DATA = {'scalar': 5, 'hasconv': 'x', 'plain': 'x', 'listsub': [1, 2], 'enum': 'r', 'flag': 1}
 GLOBAL_REGISTERED = False
 
 
 def global_handler(ty, args, *, handlers):
-    if ty in (int, HasConv, Plain, ListSub):
+    if ty in (int, HasConv, Plain, ListSub, Colour, Perm):
         return StampConv('global')
     return NotImplemented
 
@@ -188,7 +200,7 @@ def run(ctx):
             if probe == 'hasconv': winner = 'protocol'
             elif probe == 'scalar': winner = 'builtin'
             elif want_global: winner = 'global'
-            elif probe == 'listsub': winner = 'structural'
+            elif probe in ('listsub', 'enum'): winner = 'structural'
             else: winner = 'no-converter'
         # build the type
         FT = shape_type(P, shape)
@@ -268,7 +280,7 @@ def run(ctx):
         for leaf in leaves(fv, shape):
             ctx.count('from_data_leaves')
             if isinstance(leaf, Stamp): got.append(leaf.source)
-            elif isinstance(leaf, ListSub): got.append('structural')
+            elif isinstance(leaf, (ListSub, Colour)): got.append('structural')
             elif type(leaf) is int: got.append('builtin')
             else: got.append(f"?{type(leaf).__name__}")
         if any(g != winner for g in got):
@@ -299,7 +311,7 @@ def run(ctx):
             if winner in ('builtin',):
                 ok = leaf == 5
             elif winner == 'structural':
-                ok = leaf == [1, 2]
+                ok = leaf == DATA[probe]
             else:
                 ok = isinstance(leaf, list) and len(leaf) == 3 and leaf[0] == 'out' and leaf[1] == winner
             if not ok:
